@@ -4,6 +4,20 @@ import z3
 from pyvc import cx, intake
 
 
+class _Unrecognised:
+    """returned by a clause when the code no longer has the SHAPE the contract talks about (so the clause can say neither yes nor no):
+    the obligation becomes undecided instead of refuted -- a harmless restructuring must not look like a violation"""
+
+    def __init__(self, why=''):
+        self.why = why
+
+    def __call__(self, why):
+        return _Unrecognised(why)
+
+
+UNRECOGNISED = _Unrecognised()
+
+
 def pcs(r):
     return z3.And(*r.pc) if r.pc else z3.BoolVal(True)
 
@@ -19,6 +33,8 @@ def clause(col, oid, results, post, hyps=(), select=None, sample=False):
         g = post(r)
         if g is None:
             continue
+        if isinstance(g, _Unrecognised):
+            return col.undecided(oid, 'the code does not have the shape this clause talks about' + (f': {g.why}' if g.why else ''))
         n += 1
         g = z3.BoolVal(g) if isinstance(g, bool) else g
         goals.append(z3.Implies(pcs(r), g))
